@@ -404,8 +404,12 @@ func c12Chooser1(r *rand.Rand, n int, maxTx int, hist map[string]int) c12Chooser
 			case k < 90:
 				amt, how := c12Frac(r, cur.Rew[a], "5")
 				o, cls = c12Op{Kind: "reinvest", A: a, Amt: amt}, "reinvest-"+how
-			case k < 92:
+			case k < 91:
 				o, cls = c12Op{Kind: "withdrawrw", A: a, Amt: "-1000"}, "withdrawrw-negative"
+			case k < 92:
+				o, cls = c12Op{Kind: "reinvest", A: a, Amt: "-" + strconv.Itoa(1+r.Intn(3)) + e18}, "reinvest-negative"
+			case k < 94:
+				o, cls = c12Op{Kind: "donate", A: a, Amt: "-" + strconv.Itoa(1+r.Intn(5)) + e18}, "donate-negative"
 			default:
 				o, cls = c12Op{Kind: "donate", A: a, Amt: strconv.Itoa(1+r.Intn(5)) + e18}, "donate"
 			}
@@ -523,10 +527,9 @@ func c12Witnesses() []c12Spec {
 	e18 := "000000000000000000"
 	blocks := func(n int) [][]c12Op { return make([][]c12Op, n) }
 	w := []c12Spec{
-		// E9: pending entry for height 20 (and one for height 2, same delegator)
-		{Name: "witness_collision_2_20", NUsers: 3, Gen: c12Gen{Pending: []c12Entry{{H: 20, A: 0, Amt: "8" + e18}, {H: 2, A: 0, Amt: "5" + e18}, {H: 21, A: 1, Amt: "3" + e18}}}, Blocks: blocks(22)},
-		// a genesis without collisions: every pending entry paid exactly once
-		{Name: "witness_no_collision", NUsers: 3, Gen: c12Gen{Pending: []c12Entry{{H: 5, A: 0, Amt: "8" + e18}, {H: 7, A: 1, Amt: "5" + e18}, {H: 7, A: 2, Amt: "2" + e18}}}, Blocks: blocks(9)},
+		// a genesis with pending entries at unrelated heights: every entry paid exactly once
+		// (the recorded findings are passed in through -extra by the check)
+		{Name: "witness_plain_pending", NUsers: 3, Gen: c12Gen{Pending: []c12Entry{{H: 5, A: 0, Amt: "8" + e18}, {H: 7, A: 1, Amt: "5" + e18}, {H: 7, A: 2, Amt: "2" + e18}}}, Blocks: blocks(9)},
 	}
 	return w
 }
@@ -660,5 +663,23 @@ func c12Main(args []string) int {
 	}
 	sort.Strings(keys)
 	say("c12: %d cases, %d blocks, %d txs (%d ok, %d fail), %d alien keys\n", rep.Cases, rep.Blocks, rep.Txs, rep.TxOK, rep.TxFail, rep.Alien)
+	return 0
+}
+
+func init() { subcmds["c12checktx"] = c12CheckTxMain }
+
+// c12checktx: do the negative-amount delegation transactions pass CheckTx (the mempool check)?
+func c12CheckTxMain(args []string) int {
+	w := NewWorld(2, 5, 0)
+	rep := NewReplica(w.Genesis(), ReplicaOpts{NodeVal: w.Vals[0].Val})
+	defer rep.Close()
+	rep.InitChain()
+	rep.RunBlock(&BlockIn{Absent: map[int]bool{}})
+	GAS = 1000000
+	neg := "-2000000000000000000000000"
+	say("checktx undelegate %s: code %d\n", neg, rep.CheckTx(txUndelegate(w.Users[0], oltAmt(neg), "c")).Code)
+	say("checktx withdraw-rewards %s: code %d\n", neg, rep.CheckTx(txDelegWithdrawRewards(w.Users[1], oltAmt(neg), "c")).Code)
+	say("checktx reinvest %s: code %d\n", neg, rep.CheckTx(txDelegReinvest(w.Users[2], oltAmt(neg), "c")).Code)
+	say("checktx sendpool %s: code %d\n", neg, rep.CheckTx(txSendPool(w.Users[3], "DelegationPool", oltAmt(neg), "c")).Code)
 	return 0
 }
